@@ -1075,6 +1075,8 @@ func (w *c17World) native(c c17Case, stream bool, chunks []string, fault string,
 	// raw view: NDJSON lines
 	var rawText strings.Builder
 	var rawTools []string
+	var preErrItems int
+	var preErrText string
 	termSeen := false
 	for _, line := range bytes.Split(cap.Body, []byte("\n")) {
 		if len(bytes.TrimSpace(line)) == 0 {
@@ -1093,6 +1095,9 @@ func (w *c17World) native(c c17Case, stream bool, chunks []string, fault string,
 			continue
 		}
 		if probe.Error != nil {
+			if o.Errors == 0 {
+				preErrItems, preErrText = o.Items-1, rawText.String()
+			}
 			o.Errors++
 			termSeen = true
 			var s string
@@ -1141,6 +1146,8 @@ func (w *c17World) native(c c17Case, stream bool, chunks []string, fault string,
 			o.ClientDiff = fmt.Sprintf("api.Client view differs from the body: client err=%q items=%d text=%q tools=%v done=%d; body items=%d text=%q tools=%v done=%d", o.ClientErr, o.ClientN, o.Text, o.Tools, clientDone, o.Items, rawText.String(), rawTools, o.Finals)
 		case (o.Errors > 0 || cap.Status >= 400) && o.ClientErr == "":
 			o.ClientDiff = "body carries an error (or status >= 400) but api.Client returned no error"
+		case o.Errors > 0 && cap.Status < 400 && (o.ClientN != preErrItems || o.Text != preErrText):
+			o.ClientDiff = fmt.Sprintf("api.Client delivered %d responses (text %q) before returning the error; the body has %d items (text %q) before its error line", o.ClientN, o.Text, preErrItems, preErrText)
 		}
 	}
 	return o
